@@ -101,3 +101,87 @@ func init() {
 		return sched.Config{Bounds: b, Iterative: true, MaxSteps: 100000}, func() { c07connectLostBody(tier != "thorough") }
 	}})
 }
+
+// ---------------------------------------------------------------------------
+// C07 (H) the proxy starts before its cluster: some or all seed nodes refuse connections (or do not answer the
+// connect at all) while the proxy starts and makes its first refresh attempts; then they come up.
+//
+// alphabet  down at start: both nodes | node 0 | node 1 ; connects refused | timing out ; 0-2 refresh attempts
+//           (requests that trigger one) while down ; both rotations of the refresh's host pick
+// oracle    once the nodes accept connections and a periodic refresh has run, every key is served by its owner
+// ---------------------------------------------------------------------------
+
+func c07coldStartBody() {
+	vrand.Fair()
+	if sched.Choose(sched.ClsInput, 2, "rotation of the random host picks") == 1 {
+		vrand.Intn(2)
+	}
+	which := sched.Choose(sched.ClsInput, 3, "down at start")
+	timeout := sched.Choose(sched.ClsInput, 2, "connects time out") == 1
+	attempts := sched.Choose(sched.ClsInput, 3, "requests while down")
+	cl := cluster.New(2, 0, 2)
+	cl.Start()
+	down := map[string]bool{}
+	for i, n := range cl.Nodes {
+		if which == 0 || which == i+1 {
+			down[n.Addr] = true
+			if !timeout {
+				n.Stop()
+			}
+		}
+	}
+	blackhole := timeout
+	vnet.SetDialHook(func(addr string) error {
+		if blackhole && down[addr] {
+			return vnet.ErrDialTimeout
+		}
+		return nil
+	})
+	s := &vfStack{cl: cl, p: vfNewProc(vfSvcConfig(0, nil, 0), cl.Nodes[0].Addr, cl.Nodes[1].Addr), ref: cluster.NewStore()}
+	sched.GoNamed("upstream.Serve", s.p.u.Serve)
+	sched.WaitQuiescent()
+	c := s.NewClient("c0")
+	keys := []string{cl.KeyInGroup("k", 0, 0), cl.KeyInGroup("k", 1, 0)}
+	for i := 0; i < attempts; i++ {
+		c.Do("GET", keys[i%2]) // may fail: the owner (or every node) is unreachable
+		sched.WaitQuiescent()
+		sched.AdvanceTime(int64(slotsRefMinRate) + 1)
+		sched.WaitQuiescent()
+	}
+	// the cluster is up now
+	blackhole = false
+	for _, n := range cl.Nodes {
+		if n.Down {
+			n.Up()
+		}
+	}
+	sched.WaitQuiescent()
+	sched.AdvanceTime(int64(slotsRefFreq) + 1)
+	sched.WaitQuiescent()
+	s.RefreshRound()
+	s.RefreshRound()
+	for round := 0; round < 2; round++ {
+		for _, k := range keys {
+			for _, args := range [][]string{{"SET", k, "v"}, {"GET", k}} {
+				v, err := c.Do(args...)
+				sched.WaitQuiescent()
+				want := refExec(s.ref, args)
+				if err != nil || !resp.Equal(v, want) {
+					how := "refused"
+					if timeout {
+						how = "timed out"
+					}
+					sched.Fail("error-reply-although-backend-reachable / after a start with unreachable seed nodes", fmt.Sprintf("nodes down at start: %v (connects %s), %d requests meanwhile; after they came up and a periodic refresh ran, %v is answered %s (%v), expected %s", down, how, attempts, args, v, err, want))
+					return
+				}
+			}
+		}
+	}
+	sched.SetOutcome(fmt.Sprintf("down=%d timeout=%v attempts=%d", which, timeout, attempts))
+}
+
+func init() {
+	sched.Register(&sched.Scenario{Name: "C07/cold-start", Setup: func(tier string) (sched.Config, func()) {
+		return sched.Config{Bounds: sched.Bounds{}, Iterative: true, MaxSteps: 400000}, c07coldStartBody
+	}})
+}
